@@ -94,6 +94,28 @@ func (r *Run) buildAndSolve(fns []*ssa.Function) {
 			mu.Unlock()
 		}(f)
 	}
+	if r.prop != "C08" {
+		for _, lm := range r.eng.LemmasFor(r.prop) {
+			if r.only != "" && !strings.Contains(lm.Name, r.only) {
+				continue
+			}
+			wg.Add(1)
+			go func(lm *Lemma) {
+				defer wg.Done()
+				sem <- struct{}{}
+				defer func() { <-sem }()
+				vc, err := r.eng.BuildLemmaVC(lm, r.prop)
+				if err != nil {
+					fmt.Fprintln(os.Stderr, "ENGINE-ERROR:", err)
+					return
+				}
+				vc.Solve(r.dump, quickMs, raceS)
+				mu.Lock()
+				r.vcs = append(r.vcs, vc)
+				mu.Unlock()
+			}(lm)
+		}
+	}
 	wg.Wait()
 	sort.Slice(r.vcs, func(i, j int) bool { return r.vcs[i].fn.String() < r.vcs[j].fn.String() })
 }
@@ -110,7 +132,11 @@ func (r *Run) Main() int {
 	}
 	bad := 0
 	for _, vc := range r.vcs {
-		fmt.Printf("== %s (%d obligations)\n", vc.fn, len(vc.obls))
+		if vc.lemma != nil {
+			fmt.Printf("== lemma %s (%d obligations)\n", vc.lemma.Name, len(vc.obls))
+		} else {
+			fmt.Printf("== %s (%d obligations)\n", vc.fn, len(vc.obls))
+		}
 		for _, o := range vc.sortedObls() {
 			if r.verbose || (o.Status != "discharged" && o.Status != "covered") {
 				fmt.Printf("  %-11s %-60s %s  [%s %.2fs] %v\n", o.Status, o.Name, o.Src, o.Solver, o.TimeS, o.Props)
